@@ -28,6 +28,8 @@ def main():
         if only and prop not in only:
             continue
         meta = json.loads((d / "meta.json").read_text()) if (d / "meta.json").exists() else {}
+        if meta.get("superseded"):
+            continue
         checks = [prop] + [c for c in meta.get("caught_by", []) if c != prop]
         todo.append((d.name, checks))
     Path("/tmp/se").mkdir(exist_ok=True)
